@@ -111,19 +111,9 @@ where
                 let mut ret = Ordering::Equal;
                 for (order, rev) in q.order_by() {
                     if *rev {
-                        ret = ret.then(
-                            b.get(order)
-                                .unwrap()
-                                .to_string()
-                                .cmp(&a.get(order).unwrap().to_string()),
-                        );
+                        ret = ret.then(cmp_value(b.get(order).unwrap(), a.get(order).unwrap()));
                     } else {
-                        ret = ret.then(
-                            a.get(order)
-                                .unwrap()
-                                .to_string()
-                                .cmp(&b.get(order).unwrap().to_string()),
-                        );
+                        ret = ret.then(cmp_value(a.get(order).unwrap(), b.get(order).unwrap()));
                     }
                 }
 
@@ -244,6 +234,19 @@ impl Expr {
             }
         }
     }
+}
+
+/// order two column values: numbers numerically, everything else by its JSON text
+fn cmp_value(a: &JsonValue, b: &JsonValue) -> Ordering {
+    if let (JsonValue::Number(x), JsonValue::Number(y)) = (a, b) {
+        if let (Some(x), Some(y)) = (x.as_i64(), y.as_i64()) {
+            return x.cmp(&y);
+        }
+        if let (Some(x), Some(y)) = (x.as_f64(), y.as_f64()) {
+            return x.partial_cmp(&y).unwrap_or(Ordering::Equal);
+        }
+    }
+    a.to_string().cmp(&b.to_string())
 }
 
 fn map_to_model<T>(map: &HashMap<String, JsonValue>) -> Result<T>
